@@ -11,6 +11,8 @@ from __future__ import annotations
 import asyncio
 import itertools
 
+from vf.ref import tlv8 as reftlv
+
 PROPERTY_ID = "C10"
 LEVEL = "fault_enumeration"
 RULE = (
@@ -56,6 +58,7 @@ class Scenario:
         self.closed_at = None
         self.shutdown_at = None
         self.waiters: list[dict] = []
+        self.ops: list = []
         self.bad = False
 
     # ---- scripting -------------------------------------------------------------------------
@@ -116,6 +119,18 @@ class Scenario:
             d = getattr(conn.script, "drop_after", None)
             if d is not None:
                 asyncio.get_running_loop().call_later(d, conn.close)
+            inner = conn.script.responder
+
+            def responder(c, req, inner=inner):
+                # this accessory refuses pairing management: HTTP 470 with an error TLV (the controller hangs up on such a
+                # reply - a loss like any other, to be followed by further attempts)
+                if c.secure and req["target"].split("?")[0] == "/pairings":
+                    c.refused_pairings_at = asyncio.get_running_loop().time()
+                    c.send(c.http(470, reftlv.encode([(6, b"\x02"), (7, b"\x02")]), "application/pairing+tlv8"))
+                    return True
+                return inner(c, req) if inner is not None else False
+
+            conn.script.responder = responder
             return conn
 
         w.net.accept = accept
@@ -160,6 +175,8 @@ class Scenario:
             self.log.remove()
             for wt in self.waiters:
                 wt["task"].cancel()
+            for t in self.ops:
+                t.cancel()
             await w.close()
 
     async def fire(self, kind, arg) -> None:
@@ -210,6 +227,19 @@ class Scenario:
             if kind == "wait_cancel":
                 loop.call_later(2.0, rec["task"].cancel)
             self.waiters.append(rec)
+        elif kind == "list_pairings":
+            # a caller operation the accessory answers with HTTP 470 (see accept above); how the call itself ends is not
+            # judged here. It is a caller operation like "wait": it may wake a sleeping connector
+            self.wakeups.append(now)
+
+            async def op():
+                try:
+                    await asyncio.wait_for(w.pairing.list_pairings(), 25)
+                except BaseException:  # noqa: BLE001
+                    pass
+
+            self.ops.append(asyncio.ensure_future(op()))
+            self.ctx.count("pairings_refused_operations")
         elif kind == "close":
             if self.closed_at is None:
                 self.closed_at = now
@@ -345,6 +375,9 @@ class Scenario:
         for c in self.w.accessory.conns:
             rec = self.log.activation_of_conn(c.index)
             if c.secure and rec is not None and rec["ok"] and c.closed_at is not None and not c.closed_by_accessory:
+                if getattr(c, "refused_pairings_at", None) is not None:
+                    ctx.count("connections_dropped_after_http_error_reply")  # the controller hangs up by design; S1 judges what follows
+                    continue
                 if closed is None or c.closed_at < closed - EPS:
                     self.violation("S9-established-connection-dropped-by-controller", f"connection {c.index} (attempt {rec['i']}, established at t={c.opened_at - self.t0:.2f}) was closed by the controller at t={c.closed_at - self.t0:.2f} although nothing asked for it")
                     return
@@ -360,6 +393,18 @@ class Scenario:
                 if not idxs or max(gaps) > len(self.hosts) + 1:
                     self.violation("S7-host-starved", f"host {h} was a candidate in attempts {idxs[:12]} of {len(acts)}: longer than |hosts|+1 attempts without it")
                     return
+        # S7b an address that answers with a foreign pairing id (ground truth: the accessory side served the other identity)
+        # is set aside at once, so a paired accessory on another advertised address is reached after one attempt per
+        # foreign address (only refusing addresses besides: those cost no attempt of their own)
+        if self.per_host is not None and not self.triggers and set(self.per_host.values()) <= {"wrong_id", "ok", "refuse"} \
+                and "ok" in self.per_host.values() and "wrong_id" in self.per_host.values():
+            n_foreign = sum(1 for v in self.per_host.values() if v == "wrong_id")
+            first_ok = next((k for k, a in enumerate(acts) if a["exc"] is None), None)
+            if first_ok is None or first_ok > n_foreign:
+                self.violation("S7-good-address-not-reached", f"hosts {self.per_host}: {len(acts)} attempts (outcomes {[a['exc'] for a in acts[:8]]}, connected hosts {[a['connected_host'] for a in acts[:8]]}); "
+                               f"the paired accessory's address was {'never reached' if first_ok is None else 'reached only at attempt %d' % first_ok}")
+                return
+            ctx.count("foreign_addresses_set_aside")
         for t_change, new_hosts in self.host_changes:
             if closed is not None and t_change >= closed - EPS:
                 continue
@@ -455,7 +500,7 @@ BASES = [
     {"plan": ["wrong_id", "refuse"], "tail": "refuse", "hosts": ["10.0.0.5", "10.0.0.6"]},
     {"plan": ["close_m2", "garbage"], "tail": "ok"},
 ]
-TRIGGERS = ["reconnect_soon", "update_same", "update_hosts", "update_port", "wait", "wait_own_timeout", "wait_cancel", "close", "shutdown"]
+TRIGGERS = ["reconnect_soon", "update_same", "update_hosts", "update_port", "wait", "wait_own_timeout", "wait_cancel", "close", "shutdown", "list_pairings"]
 
 
 def gen_triggers(ctx, rng):
